@@ -358,8 +358,11 @@ def schema_digest(schema):
     return (F.short(schema.url), schema.handler, _type_digest(schema), types, comps)
 
 
-def exc_sig(e):
-    return (type(e).__name__, str(e)[:300])
+def exc_sig(e, scratch=None):
+    msg = str(e)
+    if scratch:
+        msg = msg.replace(scratch, "<scratch>")
+    return (type(e).__name__, msg[:300])
 
 
 # ----------------------------------------------------------------------------
@@ -377,7 +380,7 @@ def load_top(loader, path, via):
                 f.close()
         return "ok", loader.loadURL(path)
     except Exception as e:
-        return "raised", exc_sig(e)
+        return "raised", exc_sig(e, os.path.dirname(path))
 
 
 def _probs(inst, phase, seen, out):
